@@ -182,4 +182,17 @@ PROPS = {
         "level_text": "Exploration: thousands (quick) to hundreds of thousands of (diagram, ring, (h,t), variant, configuration) tuples per run, each compared with a definition-level oracle that shares no code with the library. Right level: the property is an input x configuration x schedule statement and the oracle is exact for the bounded diagrams it can afford.",
         "level_note": "Trusts the own cube construction (self-tested against published data) and SNF; bounded by diagram size.",
     },
+    "C04": {
+        "budget_s": {"quick": 120, "thorough": 1800},
+        "floor": {"quick": 1500, "thorough": 50000},
+        "rule": "table diagrams (<= 11 crossings) with 0-2 random transformations (R1 kinks, ring laid over an edge, split union, connected sum, switched crossing, mirror) and closures of random braid words on 2..5 strands; "
+                "checks: jones_polynomial = own Kauffman state sum (BigInt; one of the 2^k orientation choices for over-only components), Jones(mirror)(q) = Jones(q^-1), "
+                "sum (-1)^i q^j rank Kh^(i,j) (ranks from KhComplexBigraded over i64, <= 10 crossings) = jones_polynomial, invariance under PD-level moves (relabel, permute, reverse, R1) and braid-level moves "
+                "(sigma sigma^-1, braid relation incl. mixed signs, far commutation, conjugation, Markov (de)stabilisation of either sign), and the polynomial of a diagram with history (one crossing smoothed in the oriented way first); "
+                "every generated diagram must pass the oracle validator and every move must keep the ORACLE's polynomial (else generator fault, inconclusive); non-trivial = >= 3 crossings or >= 2 components; distinct = hash(PD, flags) / (word, moved word)",
+        "assumptions": COMMON_ASSUME + ["the i32 coefficients of the library's routine may overflow on large diagrams: counted as inconclusive"],
+        "technique": "reference-model + metamorphic monitor: library Jones routine and Khovanov ranks compared with an own state-sum oracle; invariance under generated isotopy moves whose soundness is checked against the oracle",
+        "level_text": "Exploration: thousands to hundreds of thousands of diagrams and move sequences; identity and invariance are decided by an exact independent state sum. Right level: input/history property with a cheap exact oracle for bounded diagrams.",
+        "level_note": "Trusts the oracle state sum (self-tested against the published Jones polynomial of 3_1 and chi of the oracle cube); bounded by 13 crossings.",
+    },
 }
